@@ -123,7 +123,7 @@ def check(run):
     r = gen.rng_for(run.seed, "c14")
     for i in range(8000 if thorough else 2500):
         s = strgen.build(r, "R%d" % i, ["EnumMessage"], n=(45 if i in (5, 6) else r.choice([1, 2, 3, 4, 6, 9])), allow_default=False, allow_prefix=True, allow_default_with=False,
-                         generics_pool=(None, None, "T", "a", "aT", "N", "TU", "Tw", "aTw", "I", "aI", "Tdef", "TwU"))
+                         generics_pool=(None, None, "T", "a", "aT", "N", "TU", "Tw", "aTw", "I", "aI", "Tdef", "TwU", "Tnd", "NT"))
         gen.add_noise(r, s, skip=("message", "docs", "serialize", "serialize_all", "prefix"))
         specs.append(decorate(r, s))
     units = [shards.Unit("u_" + s.name.lower(), glue(s), meta={"enum_src": s.render(), "bare_src": s.render_bare()}, sig=s.signature()) for s in specs]
